@@ -2,6 +2,7 @@
 """usage: seed_prompt.py <ID>  -- prints the task text given to a seeding sub-agent (it sees only the property text and its own worktree)."""
 import sys, json
 pid = sys.argv[1]
+extra = sys.argv[2] if len(sys.argv) > 2 else ""
 prop = None
 for line in open('/verif/properties.jsonl'):
     p = json.loads(line)
@@ -22,7 +23,7 @@ Start by reading `AGENTS.md` (language introduction) and the pipeline: `crates/c
 Produce TWO independent changes (different mechanisms, different files if possible) to the compiler's source such that each one:
 1. still compiles, and the repository's existing test suite passes exactly as before (`cargo test --workspace --no-fail-fast --offline`: the same 59 tests pass; the 16 Go-dependent tests fail as before);
 2. makes the property above FALSE for some inputs, but only for inputs that need something specific to manifest — a particular combination of language features, an unusual operand/shape/size, a multi-step sequence, a particular position, or two cooperating sites that each look fine alone — NOT something every ordinary program would expose at once. Prefer a corner that a straightforward test generator for this property would be unlikely to produce by default (an unusual nesting, a rarely used builtin or type, a specific count or length, an interaction with another language feature);
-3. looks like a plausible mistake or an over-eager "optimisation"/refactoring a developer could make (small diff, no obviously malicious code, no dead giveaway comments).
+{extra}3. looks like a plausible mistake or an over-eager "optimisation"/refactoring a developer could make (small diff, no obviously malicious code, no dead giveaway comments).
 
 For each change deliver, under `/tmp/seed-{pid}/SEED1/` and `/tmp/seed-{pid}/SEED2/`:
 * `patch.diff` — `git diff` of ONLY that change against the worktree's HEAD (apply one change at a time: revert the first before making the second; verify each patch applies cleanly to a clean checkout with `git apply --check`);
